@@ -22,6 +22,15 @@ def generate(rng, tier):
         mutated = mutate_derived(rng, c)
         if mutated is not None:
             out.append(mutated)
+    # hand-made: the base's table ends in placeholder slots (declared size / a trailing index gap); a derived block that repeats
+    # only the declared functions is SHORTER than the base's table and must be rejected; with the size it is accepted
+    vf = lambda nm, at=(): fn(True, nm, list(at), [SELF], None)
+    for i, (bsize, dsize, ok) in enumerate([(4, None, False), (4, 4, True), (3, 2, False), (5, 6, True), (4, 3, False)]):
+        base = type_def(True, 'Base', [], [vftable([a_int('size', bsize)], [vf('f'), vf('g')])])
+        der = type_def(True, 'Derived', [], [vftable([a_int('size', dsize)] if dsize is not None else [], [vf('f'), vf('g')]),
+                                             field(True, 'base', ty_id('Base'), [a_ident('base')])])
+        c = case('padtail%d' % i, rng.choice([4, 8]), [modent(path('m'), module(defs=[base, der] if i % 2 else [der, base]))])
+        out.append(c if ok else c + [[S('expect'), 'reject-vftable-mismatch']])
     return out
 
 def first_base_name(d):
@@ -34,7 +43,7 @@ def own_block(d):
     sts = type_stmts(d)
     return sts[0] if sts and tag(sts[0]) == 'vftable' else None
 
-def mutate_derived(rng, c, kinds=('name', 'recv', 'arg', 'ret', 'cc', 'trunc', 'arity')):
+def mutate_derived(rng, c, kinds=('name', 'recv', 'arg', 'ret', 'cc', 'trunc', 'arity', 'padtrunc')):
     """pick a derived type whose own block repeats inherited slots and damage one inherited slot"""
     defs = {}
     for (mp, file, m) in modules_of(c):
@@ -56,11 +65,31 @@ def mutate_derived(rng, c, kinds=('name', 'recv', 'arg', 'ret', 'cc', 'trunc', '
                 cands.append((p, nd, min(table_len(fb), len(b) - 2)))
     if not cands:
         return None
+    if 'padtrunc' in kinds and rng.random() < 0.6:
+        # the base's table ends in padding slots (declared size above its functions); the derived block repeats every declared
+        # function but forgets the size: its table is shorter than the base's – not a prefix extension, must be rejected
+        from .c04 import spec_table
+        pc = []
+        for (p_, d_, ninh_) in cands:
+            blk = own_block(d_); fbn = first_base_name(d_)
+            bb = own_block(defs[fbn]) if fbn in defs else None
+            if bb is None or attr_fn(blk[1][1:], 'size') is None: continue
+            bt, _ = spec_table(bb)
+            nosize = [blk[0], attrs(*[a for a in blk[1][1:] if not (tag(a) == 'af' and a[1] == 'size')])] + blk[2:]
+            dt, _ = spec_table(nosize)
+            if bt is not None and dt is not None and len(dt) < len(bt):
+                pc.append((p_, d_, nosize))
+        if pc:
+            p_, d_, nosize = rng.choice(pc)
+            d2 = list(d_); t2 = list(d_[3]); t2[2] = nosize; d2[3] = t2
+            c2 = replace_at(c, p_, d2)
+            c2[1] = c2[1] + '-padtrunc'
+            return c2 + [[S('expect'), 'reject-vftable-mismatch']]
     p, d, ninh = rng.choice(cands)
     block = d[3][2]
     k = rng.randrange(ninh)
     f = list(block[2 + k])
-    kind = rng.choice(list(kinds))
+    kind = rng.choice([k_ for k_ in kinds if k_ != 'padtrunc'])
     if kind == 'name':
         f[2] = f[2] + '_x'
     elif kind == 'recv':
